@@ -3,7 +3,8 @@ C22 -- ULPI receive translation yields exactly the PHY's packet bytes.
 
 DUT: the real UTMITranslator (register window, control translator, RxEvent decoder, transmit translator) on a ULPI
 record, with and without the `rst` member.  The PHY side is models.ulpi_phy.ULPIPhy playing receive operations:
-DIR up with / without NXT, turnaround byte, RxCmds, data throttled by RxCmds (line-state changes, RxError), end by
+DIR up with / without NXT, turnaround byte, RxCmds (after a DIR+NXT start also none: first data byte in the cycle right
+after the turnaround, or after 1..3 RxCmds), data throttled by RxCmds (line-state changes, RxError), end by
 RxCmd and/or DIR, chained packets without DIR falling, RxCmd-only updates -- interleaved with control-input changes
 whose register writes are interrupted by DIR at chosen phases.
 
@@ -30,20 +31,25 @@ RULES = {
 }
 PROBES = ["rx_start_nxt", "rx_start_rxcmd", "rxcmd_start_data_next_cycle", "rxcmd_start_after_dir_ended_packet",
           "rxcmd_while_write_pending", "dir_interrupts_regwrite", "chained_packet", "rx_error_midpacket",
-          "host_disconnect", "rxcmd_midpacket", "rst_variant"]
+          "host_disconnect", "rxcmd_midpacket", "rst_variant",
+          "nxt_start_data_right_after_turnaround", "nxt_start_data_after_one_rxcmd", "nxt_start_one_byte_packet_no_rxcmd"]
 META = {
     "components_real": ["UTMITranslator", "ULPIRxEventDecoder", "ULPIRegisterWindow", "ULPIControlTranslator",
                         "ULPITransmitTranslator"],
     "components_stubbed": ["ULPI PHY (models.ulpi_phy.ULPIPhy)", "UTMI control inputs (literal changes from the scenario)"],
-    "assumptions": ["PHY obeys ULPI 1.1: turnaround cycle on every DIR change, an RxCmd (RxActive=1) follows the turnaround of a "
-                    "DIR+NXT start, NXT with DIR high only for receive data, commands accepted only with DIR low",
+    "assumptions": ["PHY obeys ULPI 1.1: turnaround cycle on every DIR change; after the turnaround of a DIR+NXT start the PHY "
+                    "sends 0..3 RxCmds (RxActive=1) before the first data byte (0 = data in the cycle right after the turnaround; "
+                    "DIR rising with NXT is itself the receive start); NXT with DIR high only for receive data, commands "
+                    "accepted only with DIR low",
                     "register reads cannot be requested through UTMITranslator (read_request is tied low), so the "
                     "'register-read responses never appear as data' clause is vacuous for this DUT",
                     "no UTMI transmission in this check (C23/C24 cover it)",
                     "session_valid is not checked (the statement names line state / VBUS flags; its RxCmd mapping is ambiguous)"],
     "rule": "4-14 PHY receive operations (packets 1-24 bytes, RxCmd-only updates, chained packets) with per-run enabled "
             "fault kinds (rxcmd_midpacket, rx_error, dir-ended packets, data right after the start RxCmd, control changes whose "
-            "register writes are interrupted by DIR at a triggered phase); NXT delays per run",
+            "register writes are interrupted by DIR at a triggered phase); NXT delays per run; independently of the fault kinds, "
+            "in 60 % of the runs half of the DIR+NXT starts have no start RxCmd (then 60 % of those present the first byte in "
+            "the cycle right after the turnaround, also for one-byte and DIR-ended packets)",
 }
 TIERS = {"quick": {"runs": 2400, "wall": 70}, "thorough": {"runs": 20000, "wall": 900}}
 
@@ -71,6 +77,7 @@ def _rx_op(rng, kn, wait):
         if not kn["stale"] and not op["pre"]:
             op["pre"] = [status]
     op["start_cmds"] = rng.choice([1, 1, 2, 3])
+    nxt0 = start == "nxt" and kn["nxt0"] and rng.random() < 0.5
     if kn["mid"]:
         op["gaps"] = [rng.choice([0, 0, 0, 1, 1, 2, 4]) for _ in range(rng.randint(1, 6))]
         op["mid"] = [_status(rng) for _ in range(rng.randint(1, 3))]
@@ -84,6 +91,16 @@ def _rx_op(rng, kn, wait):
         op["gaps"][0] = 0
     if kn["rxerror"] and rng.random() < 0.25:
         op["error_at"] = rng.randrange(n)
+    if nxt0:
+        # DIR+NXT start without any start RxCmd (ULPI 1.1 3.8.2.4): the first byte follows the turnaround directly, or
+        # after throttling RxCmds / an RxError RxCmd only
+        op["start_cmds"] = 0
+        if rng.random() < 0.6:
+            op["gaps"][0] = 0
+            if op.get("error_at") == 0 and rng.random() < 0.7:
+                op["error_at"] = rng.randrange(1, n) if n > 1 else None
+                if op["error_at"] is None:
+                    del op["error_at"]
     op["end"] = rng.choice(["rxcmd", "rxcmd", "dir"]) if kn["dir_end"] else "rxcmd"
     if op["end"] == "rxcmd":
         op["post"] = [_status(rng) for _ in range(rng.randint(1, 2))]
@@ -99,6 +116,7 @@ def gen(rng, tier, index):
           "ctrl": rng.random() < 0.55, "hostdisc": rng.random() < 0.3}
     if fault_free:
         kn = {k: False for k in kn}
+    kn["nxt0"] = rng.random() < 0.6          # a PHY timing choice, not a fault: also in fault-free runs
     rst = rng.random() < 0.02
     phy = {"nxt_delays": [rng.choice([0, 0, 1, 1, 2, 3, 6]) for _ in range(rng.randint(1, 4))],
            "tx_throttle": [1], "nxt_in_stp": rng.getrandbits(1), "stp_dir_commits": bool(rng.getrandbits(1)), "patience": 80}
@@ -172,6 +190,9 @@ def run(scn):
     last_cmd = None
     m_active = []
     m_cmd = []
+    dir_low_since_cmd = []                 # DIR was low in some cycle after the most recent RxCmd
+    dls = True
+    dir_col = IDX["dir"]
     exp = deque()
     pkt = {"start": None, "gap0": False, "stale": False, "pos": 0}
     ended_by_dir_while_active = False      # the previous packet ended by DIR falling with RxActive still reported high
@@ -186,12 +207,13 @@ def run(scn):
             if tag == "ta":
                 if nx:
                     active = 1
-                    pkt = {"start": "nxt", "gap0": False, "stale": False, "pos": 0, "t0": t}
+                    pkt = {"start": "nxt", "gap0": False, "stale": False, "pos": 0, "t0": t, "act_cmds": 0}
                     pkts.append(pkt)
                     probes["rx_start_nxt"] += 1
                     n_packets += 1
             elif tag == "rxcmd":
                 last_cmd = dat
+                dls = False
                 new = (dat >> 4) & 1
                 if pending[t]:
                     probes["rxcmd_while_write_pending"] += 1
@@ -201,7 +223,7 @@ def run(scn):
                     probes["rx_error_midpacket"] += 1
                 if new and not active:
                     stale = bool(last_rxcmd_active)       # the link last heard RxActive=1 (packet ended by DIR only)
-                    pkt = {"start": "rxcmd", "gap0": False, "stale": stale, "pos": 0, "t0": t}
+                    pkt = {"start": "rxcmd", "gap0": False, "stale": stale, "pos": 0, "t0": t, "act_cmds": 0}
                     pkts.append(pkt)
                     probes["rx_start_rxcmd"] += 1
                     if stale:
@@ -209,6 +231,8 @@ def run(scn):
                     n_packets += 1
                 elif new and active and pkt.get("pos", 0) > 0:
                     probes["rxcmd_midpacket"] += 1
+                if new:
+                    pkt["act_cmds"] = pkt.get("act_cmds", 0) + 1      # RxCmds with RxActive=1 seen by this packet
                 active = new
                 last_rxcmd_active = new
             elif tag == "data":
@@ -218,13 +242,24 @@ def run(scn):
                     if first and pkt["start"] == "rxcmd" and prev is not None and prev[4] == "rxcmd" and prev[0] == pkt["t0"]:
                         pkt["gap0"] = True
                         probes["rxcmd_start_data_next_cycle"] += 1
+                    if first and pkt["start"] == "nxt":
+                        if t == pkt["t0"] + 1:
+                            probes["nxt_start_data_right_after_turnaround"] += 1
+                            nxt_f = frames.get(t + 1)
+                            if nxt_f is None or nxt_f[4] == "ta_out" or (nxt_f[4] == "rxcmd" and not (nxt_f[3] >> 4) & 1):
+                                probes["nxt_start_one_byte_packet_no_rxcmd"] += 1
+                        elif t == pkt["t0"] + 2:
+                            probes["nxt_start_data_after_one_rxcmd"] += 1
                     exp.append((t, dat, dict(pkt), pending[t]))
                     pkt["pos"] += 1
                     n_bytes += 1
             elif tag == "ta_out":
                 active = 0
+        if not rows[t][dir_col]:
+            dls = True
         m_active.append(active)
         m_cmd.append(last_cmd)
+        dir_low_since_cmd.append(dls)
     # chained packets: operations started while DIR was already high
     dir_idx = IDX["dir"]
     probes["chained_packet"] = sum(1 for (t0, op) in phy.ops_started
@@ -268,14 +303,21 @@ def run(scn):
                 viol.add("C22.rx_active_follows", t, f"rx_active={row[i_ra]} at cycle {t}; the PHY's receive state has been "
                          f"{a} since at least cycle {t - 3} (packet start kind {pkt.get('start')})", expected=a,
                          write_pending=bool(pending[t - 1]), stale_rxactive=bool(a and _pkt_at(pkts, t, "stale")),
-                         start=_pkt_at(pkts, t, "start") if a else "none")
+                         start=_pkt_at(pkts, t, "start") if a else "none",
+                         # classification of 'rx_active stuck high': how the most recent packet started, whether the PHY
+                         # sent any RxCmd with RxActive=1 during it, and whether DIR is still high
+                         after_start=_pkt_at(pkts, t, "start") if not a else "n/a",
+                         packet_had_rxactive_rxcmd=bool(_pkt_at(pkts, t, "act_cmds")) if not a else True,
+                         dir_high=bool(row[dir_idx]))
                 break
             if m_cmd[t - 2] is not None:
                 adm = [decode_rxcmd(m_cmd[k]) for k in (t - 2, t - 1, t)]
                 for f, idx in zip(FLAGS, i_flags):
                     ok = [x[f] for x in adm]
-                    if f == "rx_error" and not (rows[t - 1][dir_idx] and row[dir_idx]):
-                        ok.append(0)          # DIR low means RxActive low: an error flag tied to RxActive may drop
+                    if f == "rx_error" and (not (rows[t - 1][dir_idx] and row[dir_idx]) or any(dir_low_since_cmd[t - 2:t + 1])):
+                        # DIR low means RxActive low: an error flag tied to RxActive may drop, and stays down until the
+                        # next RxCmd (after a DIR+NXT start data may follow the turnaround without any RxCmd)
+                        ok.append(0)
                     if row[idx] not in ok:
                         viol.add("C22.status_equals_last_rxcmd", t, f"{f}={row[idx]} at cycle {t}; the most recent RxCmd "
                                  f"{m_cmd[t - 1]:#04x} (cycle <= {t - 1}) decodes to {adm[1][f]}", flag=f,
@@ -321,5 +363,5 @@ def _pkt_at(pkts, t, key):
         if p["t0"] <= t:
             best = p
     if best is None:
-        return False if key == "stale" else "unknown"
-    return best[key]
+        return False if key == "stale" else 0 if key == "act_cmds" else "unknown"
+    return best.get(key, 0)
